@@ -3,7 +3,9 @@
 //! the implementation's observable outcome.
 extern crate anoncreds;
 
+mod c11;
 mod c12d;
+mod c14;
 mod c13;
 mod c09;
 mod c16;
@@ -40,6 +42,8 @@ fn main() {
         "C16" => c16::run(tier, seed, outdir),
         "C01" | "C02" | "C03" | "C05" | "C06" | "C08" | "C12" => vcases::run(prop, tier, seed, outdir),
         "C04" | "C07" => pcases::run(prop, tier, seed, outdir),
+        "C11" => c11::run(tier, seed, outdir),
+        "C14" => c14::run(tier, seed, outdir),
         "C19" => c19::run(tier, seed, outdir),
         "C09" => c09::run(tier, seed, outdir),
         "C20" => c20::run(tier, seed, outdir),
